@@ -407,6 +407,20 @@ def regenerate():
     return u, s, changed
 
 
+def extract():
+    """tools/regen.sh protocol: everything this module generates, read from the current LDAR_REPO"""
+    u = read_unit_tables()
+    sd = read_seed_range()
+    sd["index"] = read_seed_index()
+    return {"units": u, "seed": sd, "sim_number": read_sim_number()}
+
+
+def write(x):
+    _write_if_changed(os.path.join(LEAN_GEN, "Units.lean"), render_units(x["units"]))
+    _write_if_changed(os.path.join(LEAN_GEN, "EmisSeed.lean"), render_seed(x["seed"], x["seed"]["index"]))
+    _write_if_changed(os.path.join(LEAN_GEN, "SimNumber.lean"), render_sim_number(x["sim_number"]))
+
+
 if __name__ == "__main__":
     u, s, ch = regenerate()
     print("changed:", ch, "fingerprints:", u["fingerprint"], s["fingerprint"])
